@@ -173,6 +173,15 @@ def shapes(tier):
         add("variant_mixed", decl, hsrc,
             [Harness("per_variant_rule", "caller options, variant and probe ids symbolic", covers=2, unwind=10,
                      asserts="the delegation rule is applied per variant")], True)
+    # 'an index that denotes no argument must not delegate' seen from the user's side: format_args! has to see the literal and reject it
+    # (fix 445ad48).  Must-not-compile programs, decided by rustc while the harness crate is built - not a solver result.
+    from ..shapes import reject_shape
+    for n, prog in (("index_beyond_only_argument", '#[derive(derive_more::Display)] #[display("{1}", _0)] pub struct S(u8);'),
+                    ("index_beyond_only_argument_debug", '#[derive(derive_more::Display)] #[display("{1:?}", a)] pub struct S { a: u8 }'),
+                    ("index_beyond_only_argument_variant", '#[derive(derive_more::Display)] pub enum E { #[display("{01}", _0)] A(u8), B }'),
+                    ("index_beyond_only_argument_hex_derive", '#[derive(derive_more::LowerHex)] #[lower_hex("{1:x}", _0)] pub struct S(u8);'),
+                    ("index_without_arguments", '#[derive(derive_more::Display)] #[display("{0}")] pub struct S(u8);')):
+        out.append(reject_shape("c05", n, prog, "a bare placeholder whose index denotes no argument", ["impl/src/fmt/mod.rs::FmtAttribute::transparent_call"]))
     if tier == "quick":
         out = [s for s in out if s.quick]
     return out
